@@ -235,7 +235,9 @@ pub fn c14_factor_shape(loc: &str) -> Value {
         if get(Source::INSITU, d, Step::A) != (0.0, 0.0) { bad.push(format!("export {:?} step A carries non-renewable energy or emissions", d)); }
         if get(Source::INSITU, d, Step::B) != g { bad.push(format!("export {:?} step B is not the grid factor", d)); }
     }
-    json!({"hypothesis": "c14_shape (premise of thm_c14_nren_co2)", "loc": loc, "holds": bad.is_empty(), "violations": bad})
+    if w.wdata.iter().any(|f| f.source == Source::COGEN) { bad.push("a factor with source COGEN".into()); }
+    if w.wdata.iter().any(|f| f.source == Source::RED && f.dest == Dest::SUMINISTRO && f.step == Step::A && (f.nren < 0.0 || f.co2 < 0.0)) { bad.push("a negative grid factor".into()); }
+    json!({"hypothesis": "c14_factors (premise of thm_c14_nren_co2_cgn; c14_shape is its electricity part)", "loc": loc, "holds": bad.is_empty(), "violations": bad})
 }
 /// the executable reading of spec/rel_c13.rs::c13_factors on the normalized regulatory factor set of a location
 pub fn c13_factor_shape(loc: &str) -> Value {
